@@ -61,8 +61,13 @@ VAR = {n: 30 + i for i, n in enumerate("abcdefghijklmnopqrstuvwxyz")}   # VAR["g
 # ----------------------------------------------------------------------------------------
 # trees -> source, trees -> integers
 # ----------------------------------------------------------------------------------------
+REL = [False]      # print literal template names relative ("./t2") - for runs with a path join callback
+
+
 def ne_src(e):
-    return '"%s"' % S(e[1]) if e[0] == "lit" else S(e[1])
+    if e[0] == "lit":
+        return '"%s%s"' % ("./" if REL[0] and e[1] != 0 else "", S(e[1]))
+    return S(e[1])
 
 
 def ne_enc(e):
@@ -132,11 +137,20 @@ def enc_item(it):
 DEFAULT_LIMIT = 500
 
 
-class Case:
-    """templates: {template id: items}; ctx: {variable id: token id}; lim: recursion limit of the environment"""
+BAD_SYNTAX, BAD_LOADER = "syntax", "loader"      # a template that exists but does not load
+BAD_SRC = {BAD_SYNTAX: "real content {% if %}", BAD_LOADER: "!!ERR the loader fails"}
+BAD_CODE = {BAD_SYNTAX: 4, BAD_LOADER: 3}                # ErrorKind::SyntaxError / InvalidOperation
 
-    def __init__(self, templates, main, ctx=None, lim=DEFAULT_LIMIT, kind="", note=None):
+
+class Case:
+    """templates: {template id: items | BAD_SYNTAX | BAD_LOADER}; ctx: {variable id: token id}; lim: recursion limit;
+    loader: templates are served through Environment::set_loader (forced when a template does not load);
+    pathjoin: templates are named d/<name>, literal references are relative (./<name>), a path join callback is set"""
+
+    def __init__(self, templates, main, ctx=None, lim=DEFAULT_LIMIT, kind="", note=None, loader=False, pathjoin=False):
         self.templates, self.main, self.ctx, self.lim, self.kind, self.note = templates, main, ctx or {}, lim, kind, note
+        self.pathjoin = pathjoin
+        self.loader = loader or any(isinstance(b, str) for b in templates.values())
 
     def fuel(self):
         return 2 * self.lim + 60
@@ -147,19 +161,30 @@ class Case:
             out += [x, self.ctx[x]]
         out.append(len(self.templates))
         for n in sorted(self.templates):
-            out += [n] + enc_items(self.templates[n])
+            b = self.templates[n]
+            out += [n, -1, BAD_CODE[b]] if isinstance(b, str) else [n] + enc_items(b)
         return out
 
     def request(self):
-        r = {"templates": {S(n): src(b) for n, b in self.templates.items()}, "main": S(self.main),
+        pre = "d/" if self.pathjoin else ""
+        REL[0] = self.pathjoin
+        try:
+            srcs = {pre + S(n): (BAD_SRC[b] if isinstance(b, str) else src(b)) for n, b in self.templates.items()}
+        finally:
+            REL[0] = False
+        r = {"templates": {} if self.loader else srcs, "main": pre + S(self.main),
              "ctx": {S(x): S(v) for x, v in self.ctx.items()}, "ops": ["render"]}
+        if self.loader: r["loader"] = srcs
+        if self.pathjoin: r["path_join"] = True
         if self.lim != DEFAULT_LIMIT:
             r["recursion_limit"] = self.lim
         return r
 
     def describe(self):
         r = self.request()
-        d = {"kind": self.kind, "templates": r["templates"], "render": r["main"], "context": r["ctx"]}
+        d = {"kind": self.kind, "templates": r.get("loader") or r["templates"], "render": r["main"], "context": r["ctx"]}
+        if self.loader: d["templates_served_by"] = "Environment::set_loader"
+        if self.pathjoin: d["path_join_callback"] = True
         if self.lim != DEFAULT_LIMIT: d["recursion_limit"] = self.lim
         if self.note: d["note"] = self.note
         return d
@@ -204,6 +229,7 @@ OPTS = (0, 1, 2, 3)
 
 def body_of(label, opt, nested=None, extra=None):
     core = [text(label)] + ([nested] if nested else []) + (extra or [])
+    if opt == 5: return ([nested] if nested else [])          # an EMPTY definition (only the nested block, if any)
     if opt == 1: return core
     if opt == 2: return [SUPER] + core
     if opt == 4: return [SUPER] + core + [SUPER]          # super() twice (sampled grids only)
@@ -221,6 +247,8 @@ def level_combos():
 
 
 LEVELS = level_combos()
+OPTS5 = (0, 1, 2, 3, 5)
+LEVELS5 = [(oa, oc, nest) for oa in OPTS5 for oc in OPTS5 for nest in ((0, 1) if (oa and oc) else (0,))]
 
 
 def chain_templates(levels, tail=0, ext=None, ob=None, bcalls=None):
@@ -274,6 +302,17 @@ def gen_chains(chk, cases):
         for _ in range(6000):
             combo = [rng.choice(LEVELS) for _ in range(4)]
             cases.append(Case(chain_templates(combo, rng.below(3)), 1, kind="chain4"))
+    # EMPTY definitions at every level: all chains of 2-4 templates over one block with
+    # {absent, text, super() before, super() after, empty}; two blocks + nesting sampled
+    for n in (2, 3, 4):
+        for opts in itertools.product(OPTS5, repeat=n):
+            if 5 in opts:
+                cases.append(Case(chain_templates([(o, 0, 0) for o in opts], 1), 1, kind="chain%d-empty" % n))
+    for _ in range(40000 if chk.thorough else 3000):
+        n = 2 + rng.below(3)
+        combo = [rng.choice(LEVELS5) for _ in range(n)]
+        if any(5 in lv[:2] for lv in combo):
+            cases.append(Case(chain_templates(combo, rng.below(3)), 1, kind="chain%d-empty" % n))
     # super() called twice in one definition: all 2- and 3-template chains over one block
     for n in (2, 3):
         for opts in itertools.product((0, 1, 2, 3, 4), repeat=n):
@@ -283,7 +322,7 @@ def gen_chains(chk, cases):
     for _ in range(200000 if chk.thorough else 4000):
         n = 2 + rng.below(3)
         combo = [rng.choice(LEVELS) for _ in range(n)]
-        ob = [rng.choice(OPTS + (4,)) for _ in range(n)]
+        ob = [rng.choice(OPTS + (4, 5)) for _ in range(n)]
         bc = [rng.below(2) for _ in range(n)]
         cases.append(Case(chain_templates(combo, rng.below(4), None, ob, bc), 1, kind="chain%d+b" % n))
 
@@ -384,13 +423,14 @@ def gen_errors(chk, cases):
     cases.append(Case({1: [("extends", lit(2)), blk(A, [text("x")])], 2: [text("p"), SUPER]}, 1, kind="super-outside"))
     cases.append(Case({1: [text("a"), ("self", A)]}, 1, kind="unknown-block"))
     cases.append(Case({1: [("extends", lit(2))], 2: [("self", A)]}, 1, kind="unknown-block"))
-    for chain_req in itertools.product((0, 1, 2, 3), repeat=3):      # per level: absent | plain | required | plain + super
+    for chain_req in itertools.product((0, 1, 2, 3, 4), repeat=3):      # per level: absent | plain | required | plain + super | empty
         t = {}
         for i, o in enumerate(chain_req):
             items = [("extends", lit(i + 2))] if i < 2 else [text("R(")]
             if o == 1: items.append(blk(A, [text("A%d" % i)]))
             if o == 2: items.append(blk(A, [], True))
             if o == 3: items.append(blk(A, [text("A%d" % i), SUPER]))
+            if o == 4: items.append(blk(A, []))
             if i == 2: items += [text(")"), ("self", A)]
             t[i + 1] = items
         cases.append(Case(t, 1, kind="required"))
@@ -493,6 +533,75 @@ def gen_placements(chk, cases):
         cases.append(Case(t, 1, {G: T("G")}, kind="chain+include/%s" % tname))
 
 
+def gen_unloadable(chk, cases):
+    """templates that EXIST but do not load (syntax error in the source / the loader fails): they are not "missing" -
+    include lists do not skip them, `ignore missing` does not apply, extends / import / render fail with the load error"""
+    G, Sv, M, X = (VAR[c] for c in "gsmx")
+    TGT, BASE, MISS1, MISS2, BROKEN, FLAKY = 10, 5, 8, 9, 14, 15
+    world = {BASE: [text("B("), blk(A, [text("ba")]), text(")")], TGT: [text("<fallback"), ("print", Sv), text(">")],
+             BROKEN: BAD_SYNTAX, FLAKY: BAD_LOADER}
+    constructs = {}
+    for bname, bad in (("broken", BROKEN), ("flaky", FLAKY)):
+        constructs.update({
+            bname + "-single": [inc([lit(bad)])],
+            bname + "-ignore": [inc([lit(bad)], True)],
+            bname + "-in-list": [inc([lit(MISS1), lit(bad), lit(TGT)], False, 1)],
+            bname + "-in-list-ignore": [inc([lit(MISS1), lit(bad), lit(TGT)], True, 1)],
+            bname + "-first": [inc([lit(bad), lit(TGT)], False, 1)],
+            bname + "-last-ignore": [inc([lit(MISS1), lit(MISS2), lit(bad)], True, 1)],
+            bname + "-after-existing": [inc([lit(MISS1), lit(TGT), lit(bad)], False, 1)],      # the first existing one is rendered
+            bname + "-by-variable": [inc([lit(MISS1), nvar("n")], True, 1)],
+            bname + "-import": [("import", lit(bad), M), ("pattr", M, X)],
+            bname + "-from": [("from", lit(bad), [(X, X)]), ("print", X)],
+        })
+    def place(where, construct):
+        body = [("set", Sv, T("S"))] + construct
+        if where == "top": return {1: [text("M(")] + body + [text(")")]}
+        if where == "for": return {1: [text("M("), ("for", 2, [text("(")] + body + [text(")")]), text(")")]}
+        if where == "macro": return {1: [("macro", VAR["w"], [text("(")] + body + [text(")")]), text("M("), ("call", VAR["w"], T("P")), text(")")]}
+        if where == "block": return {1: [text("M("), blk(A, [text("[")] + body + [text("]")]), text(")")]}
+        if where == "child-block": return {1: [("extends", lit(BASE)), blk(A, [text("[")] + body + [SUPER, text("]")])]}
+        if where == "child-block-in-for": return {1: [("extends", lit(BASE)), blk(A, [("for", 2, [text("<")] + body + [text(">")])])]}
+    for where in ("top", "for", "macro", "block", "child-block", "child-block-in-for"):
+        for cname, construct in constructs.items():
+            t = dict(world); t.update(place(where, construct))
+            ctx = {VAR["n"]: BROKEN if cname.startswith("broken") else FLAKY}
+            cases.append(Case(t, 1, ctx, kind="unloadable/%s/%s" % (where, cname)))
+    # extends of an unloadable template at every level of a chain, literal / variable / conditional; rendering one
+    base3 = [(3, 1, 0), (2, 0, 0), (1, 1, 1)]
+    for bad in (BROKEN, FLAKY):
+        for lvl in (1, 2, 3):
+            for form in (0, 1, 2):
+                t = chain_templates(base3 + [(1, 1, 0)], 1)
+                ctx = {}
+                if form == 0: head = ("extends", lit(bad))
+                elif form == 1: head = ("extends", nvar("n")); ctx[VAR["n"]] = bad
+                else: head = ("condext", G, lit(bad)); ctx[G] = T("yes")
+                t[lvl] = [head] + t[lvl][1:]
+                t.update({BROKEN: BAD_SYNTAX, FLAKY: BAD_LOADER})
+                cases.append(Case(t, 1, ctx, kind="unloadable/extends"))
+        t = dict(world); t[1] = [text("x")]
+        cases.append(Case(t, bad, kind="unloadable/render"))
+
+
+def gen_variants(chk, cases):
+    """the same configurations served lazily through a loader, and under a path join callback with relative names"""
+    rng = chk.rng
+    base = [c for c in cases if not c.loader and not c.pathjoin]
+    extra = []
+    for k in range(12000 if chk.thorough else 1500):
+        c = rng.choice(base)
+        mode = k % 3
+        extra.append(Case(c.templates, c.main, c.ctx, c.lim, kind=c.kind.split("/")[0] + ("+loader", "+pathjoin", "+loader+pathjoin")[mode],
+                          loader=mode != 1, pathjoin=mode != 0))
+    # inheritance cycles under relative names (the loaded set holds joined names)
+    for n in (1, 2, 3):
+        t = chain_templates([(1, 0, 0)] * n, 0)
+        t[n] = [("extends", lit(1)), text("x")] + t[n][1:]
+        extra.append(Case(t, 1, kind="extends-cycle+pathjoin", loader=True, pathjoin=True))
+    cases.extend(extra)
+
+
 def gen_outside_fragment(chk, cases):
     """the model follows the engine here, the specification does not speak about these (wf = 0): correspondence only"""
     G, Sv, Vv, M, X, F = (VAR[c] for c in "gsvmxf")
@@ -546,14 +655,17 @@ def all_cases(chk):
     gen_extends_forms(chk, cases)
     gen_errors(chk, cases)
     gen_placements(chk, cases)
+    gen_unloadable(chk, cases)
     gen_outside_fragment(chk, cases)
+    gen_variants(chk, cases)
     return cases
 
 
 def replay_payload(c, extra):
     d = c.describe()
     d.update(extra)
-    d["tree"] = {"templates": repr(c.templates), "main": c.main, "ctx": repr(c.ctx), "lim": c.lim, "texts": {str(k): v for k, v in TAB.text.items()}}
+    d["tree"] = {"templates": repr(c.templates), "main": c.main, "ctx": repr(c.ctx), "lim": c.lim, "loader": c.loader, "pathjoin": c.pathjoin,
+                 "texts": {str(k): v for k, v in TAB.text.items()}}
     d["how"] = "./check C06 --replay <this file>"
     return d
 
@@ -563,7 +675,7 @@ def load_replay(path):
     for k, v in rp["texts"].items():
         TAB.text[int(k)] = v
         TAB.rev[v] = int(k)
-    return [Case(eval(rp["templates"]), rp["main"], eval(rp["ctx"]), rp["lim"], kind="replay")]
+    return [Case(eval(rp["templates"]), rp["main"], eval(rp["ctx"]), rp["lim"], kind="replay", loader=rp.get("loader", False), pathjoin=rp.get("pathjoin", False))]
 
 
 def main():
@@ -622,9 +734,11 @@ def main():
             theorem_bad.append(i)
         if wf[i] and m[0] == "limit" and sp[0] != "gas":
             hist["limit_hit_on_finite_render"] += 1
+        if c.loader: hist["served_by_loader"] += 1
+        if c.pathjoin: hist["path_join_callback"] += 1
         ntmpl = len(c.templates)
         if ntmpl >= 2 and (m[0] in ("ok", "err", "limit")) and not (m[0] == "ok" and m[1] == ""):
-            nontriv.add(json.dumps([reqs[i]["templates"], reqs[i]["ctx"], reqs[i]["main"]], sort_keys=True))
+            nontriv.add(json.dumps([reqs[i]["templates"], reqs[i].get("loader"), reqs[i]["ctx"], reqs[i]["main"]], sort_keys=True))
 
     # kernel cross-check of the extraction on a few small cases
     small = sorted(range(len(cases)), key=lambda i: (len(encs[i]), i))
@@ -638,7 +752,7 @@ def main():
     chk.cov["distinct_nontrivial"] = len(nontriv)
     chk.cov["rule"] = ("exhaustive: every assignment of {absent, override, override + super() before, override + super() after} (+ nesting of c inside a) to blocks a, c for chains of 1-3 templates"
                        + (" and 4 templates" if chk.thorough else "; 4-template chains and the 3-block alphabet are seeded samples")
-                       + "; dynamic / conditional extends over all 2-template assignments + samples; include / import placements (top level, for loop, macro, block, block of an extending template) x naming forms x targets; cycles, double extends, missing templates, include cycles, recursion depth boundaries, required blocks. "
+                       + "; dynamic / conditional extends over all 2-template assignments + samples; EMPTY definitions at every level (exhaustive over one block for 2-4 templates); include / import placements (top level, for loop, macro, block, block of an extending template) x naming forms x targets; templates that exist but do not load (syntax error / failing loader) in include lists, with ignore missing, import, extends, render; a sample of all configurations served through Environment::set_loader and under a path join callback with relative names; cycles, double extends, missing templates, include cycles, recursion depth boundaries, required blocks. "
                        "Each case is rendered by the engine in a debug and a release build and evaluated by the extracted model and specification. "
                        "non-trivial = distinct (templates, context) with at least two templates whose render is a non-empty text or an error")
     chk.cov["exhaustive"] = False
